@@ -25,6 +25,13 @@ USERS = [
 USER_NAMES = ["anonymous", "bob", "nop", "zed", "bob", ""]
 PASSWORDS = ["pw", "pw", "bad", "", "PW", " pw"]
 INITIAL_TREE = {"/": DIR, "/c": DIR}
+# server options that must not change any reply, byte or tree effect of a session (metamorphic dimension)
+NEUTRAL_SERVER_KW = [
+    {}, {}, {"data_ports": [5001, 5002, 5003]}, {"maximum_connections": 5}, {"socket_timeout": 900, "idle_timeout": 900},
+    {"path_timeout": 900}, {"read_speed_limit": 10 ** 9, "write_speed_limit": 10 ** 9,
+                            "read_speed_limit_per_connection": 10 ** 9, "write_speed_limit_per_connection": 10 ** 9},
+    {"ipv4_pasv_forced_response_address": "127.0.0.1"}, {"data_ports": [5001], "maximum_connections": 1, "path_timeout": 900},
+]
 
 
 def gen_path(m, c, d):
